@@ -155,72 +155,87 @@ Proof.
   unfold go_List_LPush. rewrite Hsize. cbn [gbind]. rewrite Hlk.
   rewrite (iadd_ok (zlen old) (zlen vs)) by (unfold int_ok; lia).
   rewrite gmake_ok by lia. cbn [gbind].
-  (* first loop *)
+  (* first loop; the loop state holds (new slice, write index, read index + 1)
+     in an order that depends on the loop body: found by [with_dec3] *)
   match goal with |- context [gfor fuel ?c ?b ?p ?s] =>
-    destruct (gfor_inv (lpush_inv1 old vs) (List.length old) c b p fuel s) as [[[nl1 j1] i1] [Hrun1 Hinv1]]
+    let T := type of s in
+    with_dec3 T ltac:(fun dec =>
+      destruct (gfor_inv (fun k (st : T) => lpush_inv1 old vs k (dec st)) (List.length old) c b p fuel s)
+        as [st1 [Hrun1 Hinv1]];
+      [ solve [ intros k [[s1 s2] s3] Hk HI; cbv beta iota zeta in HI |- *;
+                lazymatch type of HI with lpush_inv1 _ _ _ (?nl, ?j, ?i) =>
+                  destruct HI as [Hi [Hj Hnl]]; unfold zlen in *;
+                  split; [lia|];
+                  rewrite ?(isub_ok i 1) by (unfold int_ok; lia);
+                  go_cases;
+                  rewrite (gidx_ok old (i - 1) []) by (unfold zlen; lia); cbn [gbind];
+                  rewrite gupd_ok
+                    by (subst nl; rewrite !zlen_app, !zlen_repeat; unfold zlen; rewrite firstn_length; lia);
+                  cbn [gbind]; eexists; split; [reflexivity|];
+                  cbv beta iota zeta; unfold lpush_inv1, zlen;
+                  rewrite ?(iadd_ok i 1) by (unfold int_ok; lia);
+                  rewrite ?(iadd_ok j 1) by (unfold int_ok; lia);
+                  split; [lia|]; split; [lia|];
+                  subst nl;
+                  replace (List.length old - k)%nat with (Datatypes.S (List.length old - Datatypes.S k)) by lia;
+                  cbn [repeat]; rewrite app_assoc;
+                  rewrite upd_nth_app_at by (rewrite app_length, repeat_length, firstn_length; lia);
+                  rewrite (firstn_snoc old k []) by lia;
+                  replace (Z.to_nat (i - 1)) with k by lia;
+                  rewrite <- !app_assoc; reflexivity
+                end ]
+      | solve [ intros [[s1 s2] s3] HI; cbv beta iota zeta in HI |- *;
+                destruct HI as [Hi [Hj Hnl]]; unfold zlen in *; lia ]
+      | solve [ cbv beta iota zeta; unfold lpush_inv1; split; [lia|]; split; [lia|];
+                rewrite Nat.sub_0_r; cbn [firstn app];
+                unfold zlen; rewrite <- repeat_app; f_equal; lia ]
+      | solve [ unfold zlen in *; lia ]
+      | ])
   end.
-  - intros k [[nl j] i] Hk [Hi [Hj Hnl]]. unfold zlen in *.
-    split; [lia|].
-    rewrite (isub_ok i 1) by (unfold int_ok; lia).
-    replace (i - 1 <? Z.of_nat (List.length old)) with true by lia.
-    rewrite (gidx_ok old (i - 1) []) by (unfold zlen; lia). cbn [gbind].
-    rewrite gupd_ok.
-    2:{ subst nl. rewrite !zlen_app, !zlen_repeat. unfold zlen.
-        rewrite firstn_length. lia. }
-    cbn [gbind]. eexists. split; [reflexivity|].
-    unfold lpush_inv1, zlen.
-    rewrite (iadd_ok i 1) by (unfold int_ok; lia).
-    rewrite (iadd_ok j 1) by (unfold int_ok; lia).
-    split; [lia|]. split; [lia|].
-    subst nl.
-    replace (List.length old - k)%nat with (Datatypes.S (List.length old - Datatypes.S k)) by lia.
-    cbn [repeat]. rewrite app_assoc.
-    rewrite upd_nth_app_at.
-    2:{ rewrite app_length, repeat_length, firstn_length. lia. }
-    rewrite (firstn_snoc old k []) by lia.
-    replace (Z.to_nat (i - 1)) with k by lia.
-    rewrite <- !app_assoc. reflexivity.
-  - intros [[nl j] i] [Hi [Hj Hnl]]. unfold zlen in *. lia.
-  - unfold lpush_inv1. split; [lia|]. split; [lia|].
-    rewrite Nat.sub_0_r. cbn [firstn app].
-    unfold zlen. rewrite <- repeat_app. f_equal. lia.
-  - unfold zlen in *. lia.
-  - rewrite Hrun1. cbn [gbind].
-    destruct Hinv1 as [Hi1 [Hj1 Hnl1]].
-    rewrite firstn_all, Nat.sub_diag in Hnl1. cbn [repeat] in Hnl1.
-    rewrite app_nil_r in Hnl1.
-    rewrite (isub_ok (zlen vs) 1) by (unfold int_ok; lia).
-    (* second loop *)
-    match goal with |- context [gfor fuel ?c ?b ?p ?s] =>
-      destruct (gfor_inv (lpush_inv2 old vs) (List.length vs) c b p fuel s) as [[[nl2 j2] i2] [Hrun2 Hinv2]]
-    end.
-    + intros k [[nl j] i] Hk [Hj [Hi Hnl]]. unfold zlen in *.
-      split; [lia|].
-      rewrite (gidx_ok vs j []) by (unfold zlen; lia). cbn [gbind].
-      rewrite gupd_ok.
-      2:{ subst nl. rewrite !zlen_app, !zlen_repeat. unfold zlen. lia. }
-      cbn [gbind]. eexists. split; [reflexivity|].
-      unfold lpush_inv2, zlen.
-      rewrite (iadd_ok j 1) by (unfold int_ok; lia).
-      rewrite (isub_ok i 1) by (unfold int_ok; lia).
-      split; [lia|]. split; [lia|].
-      subst nl.
-      replace (List.length vs - k)%nat with (List.length vs - Datatypes.S k + 1)%nat by lia.
-      rewrite repeat_app. cbn [repeat]. rewrite <- app_assoc. cbn [app].
-      rewrite upd_nth_app_at.
-      2:{ rewrite repeat_length. lia. }
-      rewrite (firstn_snoc vs k []) by lia.
-      rewrite rev_app_distr. cbn [rev app].
-      replace (Z.to_nat j) with k by lia.
-      reflexivity.
-    + intros [[nl j] i] [Hj [Hi Hnl]]. unfold zlen in *. lia.
-    + unfold lpush_inv2. split; [lia|]. split; [lia|].
-      rewrite Nat.sub_0_r. cbn [firstn rev app]. exact Hnl1.
-    + unfold zlen in *. lia.
-    + rewrite Hrun2. cbn [gbind].
-      destruct Hinv2 as [Hj2 [Hi2 Hnl2]].
-      rewrite firstn_all, Nat.sub_diag in Hnl2. cbn [repeat app] in Hnl2.
-      subst nl2. reflexivity.
+  rewrite Hrun1. cbn [gbind].
+  destruct st1 as [[s1 s2] s3]. cbv beta iota zeta in Hinv1 |- *.
+  destruct Hinv1 as [Hi1 [Hj1 Hnl1]].
+  rewrite firstn_all, Nat.sub_diag in Hnl1. cbn [repeat] in Hnl1.
+  rewrite app_nil_r in Hnl1.
+  rewrite ?(isub_ok (zlen vs) 1) by (unfold int_ok; lia).
+  (* second loop; the state holds (new slice, read index, write index) in some order *)
+  match goal with |- context [gfor fuel ?c ?b ?p ?s] =>
+    let T := type of s in
+    with_dec3 T ltac:(fun dec =>
+      destruct (gfor_inv (fun k (st : T) => lpush_inv2 old vs k (dec st)) (List.length vs) c b p fuel s)
+        as [st2 [Hrun2 Hinv2]];
+      [ solve [ intros k [[t1 t2] t3] Hk HI; cbv beta iota zeta in HI |- *;
+                lazymatch type of HI with lpush_inv2 _ _ _ (?nl, ?j, ?i) =>
+                  destruct HI as [Hj [Hi Hnl]]; unfold zlen in *;
+                  split; [lia|];
+                  rewrite (gidx_ok vs j []) by (unfold zlen; lia); cbn [gbind];
+                  rewrite gupd_ok by (subst nl; rewrite !zlen_app, !zlen_repeat; unfold zlen; lia);
+                  cbn [gbind]; eexists; split; [reflexivity|];
+                  cbv beta iota zeta; unfold lpush_inv2, zlen;
+                  rewrite ?(iadd_ok j 1) by (unfold int_ok; lia);
+                  rewrite ?(isub_ok i 1) by (unfold int_ok; lia);
+                  split; [lia|]; split; [lia|];
+                  subst nl;
+                  replace (List.length vs - k)%nat with (List.length vs - Datatypes.S k + 1)%nat by lia;
+                  rewrite repeat_app; cbn [repeat]; rewrite <- app_assoc; cbn [app];
+                  rewrite upd_nth_app_at by (rewrite repeat_length; lia);
+                  rewrite (firstn_snoc vs k []) by lia;
+                  rewrite rev_app_distr; cbn [rev app];
+                  replace (Z.to_nat j) with k by lia;
+                  reflexivity
+                end ]
+      | solve [ intros [[t1 t2] t3] HI; cbv beta iota zeta in HI |- *;
+                destruct HI as [Hj [Hi Hnl]]; unfold zlen in *; lia ]
+      | solve [ cbv beta iota zeta; unfold lpush_inv2; split; [lia|]; split; [lia|];
+                rewrite Nat.sub_0_r; cbn [firstn rev app]; exact Hnl1 ]
+      | solve [ unfold zlen in *; lia ]
+      | ])
+  end.
+  rewrite Hrun2. cbn [gbind].
+  destruct st2 as [[t1 t2] t3]. cbv beta iota zeta in Hinv2 |- *.
+  destruct Hinv2 as [Hj2 [Hi2 Hnl2]].
+  rewrite firstn_all, Nat.sub_diag in Hnl2. cbn [repeat app] in Hnl2.
+  rewrite Hnl2. reflexivity.
 Qed.
 
 Theorem go_LPush_eq fuel l key vs :
